@@ -185,6 +185,7 @@ func c18NoWriteBeforeReject(c *Ctx) {
 	}
 	r.Count("r2_write_calls", nW)
 	c18ReinitStepsOwnRound(c)
+	c18RegisterLast(c)
 }
 
 // c18ReinitStepsOwnRound: a reinit operation replays a list of inner operations through GetOperationResult, each with all
@@ -685,4 +686,47 @@ func fromRequest(v ssa.Value, req *ssa.TypeAssert) bool {
 		}
 	}
 	return false
+}
+
+
+// c18RegisterLast: the step that CREATES a round's key-generation instance registers it in Machine.dkgInstances only
+// when nothing can fail any more. Registered earlier, a step that is then refused (a peer key that is no curve point)
+// leaves a half-built instance behind: the refused operation was not a no-op — a corrected operation for the round is
+// refused with "already exists" and the next step dereferences what was never initialised.
+func c18RegisterLast(c *Ctx) {
+	r := c.R
+	fn := c.Fn("C18/R2", "airgapped", "Machine", "handleStateDkgCommitsAwaitConfirmations")
+	if fn == nil {
+		return
+	}
+	var regs []ssa.Instruction
+	ssax.Instrs(fn, func(in ssa.Instruction) {
+		mu, ok := in.(*ssa.MapUpdate)
+		if !ok || !strings.HasSuffix(ssax.Path(mu.Map), "dkgInstances") {
+			return
+		}
+		if call, isCall := ssax.Resolve(mu.Value).(*ssa.Call); isCall && strings.HasSuffix(ssax.FuncID(ssax.CalleeObj(call)), "/dkg.Init") {
+			regs = append(regs, in)
+		}
+	})
+	ok := len(regs) == 1
+	detail := sprintf("%d registrations of a fresh instance", len(regs))
+	if ok {
+		// no step that can refuse the operation follows the registration: a call whose last result is an error (apart
+		// from encoding a value the handler built itself, which cannot fail) is such a step
+		for _, call := range ssax.Calls(fn, false, func(ssa.CallInstruction) bool { return true }) {
+			sig := call.Common().Signature()
+			if sig == nil || sig.Results().Len() == 0 || sig.Results().At(sig.Results().Len()-1).Type().String() != "error" {
+				continue
+			}
+			id := ssax.FuncID(ssax.CalleeObj(call))
+			if id == "encoding/json.Marshal" || strings.HasPrefix(id, "fmt.") {
+				continue
+			}
+			if ci := call.(ssa.Instruction); ci != regs[0] && ssax.ReachableFrom(fn, regs[0], ci, nil, nil) {
+				ok, detail = false, "the fallible step "+callName(call)+" at "+c.PosOf(ci)+" runs after the instance was registered at "+c.PosOf(regs[0])
+			}
+		}
+	}
+	r.Check(ok, "C18/R2", "airgapped.commits-handler:registers-last", "the new round's instance is registered only after every step that can refuse the operation", c.Pos(fn.Pos()), detail)
 }
